@@ -9,7 +9,9 @@ pub mod c03;
 pub mod c09;
 pub mod c10;
 pub mod c11;
+pub mod c13;
 pub mod c14;
+pub mod c15;
 pub mod c16;
 pub mod c17;
 pub mod c18;
@@ -31,7 +33,9 @@ pub fn meta(prop: &str) -> PropMeta {
         "C09" => c09::META,
         "C10" => c10::META,
         "C11" => c11::META,
+        "C13" => c13::META,
         "C14" => c14::META,
+        "C15" => c15::META,
         "C16" => c16::META,
         "C17" => c17::META,
         "C18" => c18::META,
@@ -40,7 +44,7 @@ pub fn meta(prop: &str) -> PropMeta {
 }
 
 pub fn known(prop: &str) -> bool {
-    matches!(prop, "C01" | "C02" | "C03" | "C06" | "C07" | "C08" | "C09" | "C10" | "C11" | "C14" | "C16" | "C17" | "C18")
+    matches!(prop, "C01" | "C02" | "C03" | "C06" | "C07" | "C08" | "C09" | "C10" | "C11" | "C13" | "C14" | "C15" | "C16" | "C17" | "C18")
 }
 
 pub fn run(ctx: &mut Ctx) {
@@ -54,7 +58,9 @@ pub fn run(ctx: &mut Ctx) {
         "C09" => c09::run(ctx),
         "C10" => c10::run(ctx),
         "C11" => c11::run(ctx),
+        "C13" => c13::run(ctx),
         "C14" => c14::run(ctx),
+        "C15" => c15::run(ctx),
         "C16" => c16::run(ctx),
         "C17" => c17::run(ctx),
         "C18" => c18::run(ctx),
@@ -72,7 +78,9 @@ pub fn replay(ctx: &mut Ctx, stage: &str, case: &Value) -> Check {
         "C09" => c09::replay(ctx, stage, case),
         "C10" => c10::replay(ctx, stage, case),
         "C11" => c11::replay(ctx, stage, case),
+        "C13" => c13::replay(ctx, stage, case),
         "C14" => c14::replay(ctx, stage, case),
+        "C15" => c15::replay(ctx, stage, case),
         "C16" => c16::replay(ctx, stage, case),
         "C17" => c17::replay(ctx, stage, case),
         "C18" => c18::replay(ctx, stage, case),
